@@ -412,10 +412,12 @@ fn judge(cfg: &Cfg, h: &History) -> Judged {
             }
         }
         if let Some((li, wret)) = last_ok_write {
-            let flushed = h.wlog[li + 1..].iter().any(|c| matches!(c, Call::Flush { call, ret, res: Res::Ok(_), .. } if *call > wret && *ret < d.ret));
+            // a flush that the fault script made fail costs exactly that flush: the appender
+            // did flush, the underlying writer refused (injected) - nothing more is owed
+            let flushed = h.wlog[li + 1..].iter().any(|c| matches!(c, Call::Flush { call, ret, res: Res::Ok(_) | Res::Fail, .. } if *call > wret && *ret < d.ret));
             if !flushed {
                 problems.push(format!(
-                    "no successful flush of the underlying writer between its last write (ret {wret}) and the return of drop(guard) at {}",
+                    "no flush of the underlying writer (successful, or failed only by an injected fault) between its last write (ret {wret}) and the return of drop(guard) at {}",
                     d.ret
                 ));
             }
